@@ -180,6 +180,12 @@ func c20Scenario(seed uint64) (*core.Scenario, *C20Extra, string) {
 			return sc, ex, ""
 		}
 	}
+	if ex.Kind != "grb" && r.Chance(1, 25) {
+		// tiny inputs (0-4 bytes), among them byte order marks whole and cut: whatever peeks at the first bytes
+		tiny := r.PickStr("\xEF\xBB\xBF", "\xEF\xBB", "\xEF", "\xEF\xBB\xBF{}", "\xEF\xBB\xBFnull", "\xFF\xFE", "\xFE\xFF", "\xFF", "\x00", "{", "[", "\"", "'", "t", "n", "-", "0", " ", "//", "/*", "r", "\\u")
+		ex.Ops = []dsim.COp{{Kind: "trunc", Pos: 0}, {Kind: "insert", Pos: 0, Raw: []byte(tiny)}}
+		return &core.Scenario{Property: "C20", Sim: "D", Seed: seed}, ex, ""
+	}
 	if ex.Kind == "jsonfact" && r.Chance(1, 5) {
 		// odd but well-formed fact documents
 		doc := r.PickStr("null", " null ", "\n\tnull\n", "[]", "[1,2,3]", "3", "\"str\"", "true", "{}", "{\"a\":null}", "{\"a\":{\"b\":null}}", "1e999", "-0",
